@@ -44,6 +44,8 @@ pub enum Tamper {
     /// signature cut or extended to this length; fill: 0 zeros, 1 0xFF, 2 pseudo-random
     Length(u8, u8),
     RandomRS(u64),
+    /// (r, s) built with the private key so that [s]G + [r+s]P is the point at infinity: r = e mod n, s = -r d (1+d)^-1
+    InfinityForgery,
 }
 
 fn edges() -> Vec<BigUint> {
@@ -189,6 +191,20 @@ pub fn check(c: &Case) -> CaseResult {
             sig = expand_bytes(*seed, 64);
             class = "random-rs";
         }
+        Tamper::InfinityForgery => {
+            let d = from_be(&c.base.d);
+            let (id_b0, _) = id_bytes(c.base.id);
+            let e = r2::digest(id_b0, &bd.pk, &msg);
+            let rr = &e % n;
+            let inv = crate::refimpl::field::mod_inv(&((&d + 1u32) % n), n).unwrap();
+            let ss = (n - (&rr * &d % n) * &inv % n) % n;
+            if rr.is_zero() || ss.is_zero() {
+                return pass(false, "degenerate-forgery");
+            }
+            put(&mut sig, 0, &rr);
+            put(&mut sig, 1, &ss);
+            class = "sum-is-infinity";
+        }
     }
     let (id_b, id_opt) = id_bytes(id_idx);
     // IDs None and Some("1234567812345678") are the same signer ID: that is not a tampering
@@ -234,6 +250,7 @@ pub fn tamper_strategy() -> impl Strategy<Value = Tamper> {
         1 => any::<u64>().prop_map(Tamper::KeyOther),
         3 => (0..=130u8, 0..3u8).prop_map(|(l, f)| Tamper::Length(l, f)),
         2 => any::<u64>().prop_map(Tamper::RandomRS),
+        2 => Just(Tamper::InfinityForgery),
         1 => Just(Tamper::None),
     ]
 }
@@ -300,7 +317,7 @@ pub fn run(ctx: &Ctx) {
                     v.push(Case { base: b.clone(), tamper: Tamper::SetComponent(comp, e) });
                 }
             }
-            for t in [Tamper::None, Tamper::SEqualsNMinusR, Tamper::SwapRS, Tamper::RPlusN, Tamper::SPlusN, Tamper::MsgFlipBit(0), Tamper::MsgFlipBit(0xFFFF_FFFF), Tamper::MsgTruncate, Tamper::MsgExtend(0), Tamper::KeyNeg, Tamper::KeyPlusG, Tamper::KeyOther(1)] {
+            for t in [Tamper::None, Tamper::InfinityForgery, Tamper::SEqualsNMinusR, Tamper::SwapRS, Tamper::RPlusN, Tamper::SPlusN, Tamper::MsgFlipBit(0), Tamper::MsgFlipBit(0xFFFF_FFFF), Tamper::MsgTruncate, Tamper::MsgExtend(0), Tamper::KeyNeg, Tamper::KeyPlusG, Tamper::KeyOther(1)] {
                 v.push(Case { base: b.clone(), tamper: t });
             }
             for j in 0..id_pool().len() as u8 - 1 {
